@@ -70,7 +70,14 @@ def _paths(t):
             out.append([['LOOP1', t[1]]] + p + ([] if (p and p[-1][0] in TERMINAL) else [['LOOPEND', t[1]]]))
         return out
     if k == 'HELPER':
-        return _paths(t[2])
+        # a `return` inside an inlined helper / callback leaves the helper, not the function under analysis
+        out = []
+        for p in _paths(t[2]):
+            if p and p[-1][0] == 'RET':
+                out.append(p[:-1] + [['HRET', t[1]]])
+            else:
+                out.append(p)
+        return out
     if k == 'ONOK':
         return _paths(t[1])
     if k == '?':
@@ -255,8 +262,26 @@ def decoder_fns(facts):
                 'decode', 'decode_into', 'skip', 'decode_wrapped'):
             out.append((f, 'method'))
         elif f['ctx'] == 'free' and any(p.endswith(': codec::Input') for p in f.get('preds', [])):
+            if covered_by_callers(facts, f):
+                continue
             out.append((f, 'helper'))
     return out
+
+
+def covered_by_callers(facts, f):
+    """a crate-private generic helper that takes the input is inlined into each of its callers by the evaluator (with the
+    caller's types in place of its parameters): its paths are analysed there, in context.  Analysing it once more on its
+    own, with every type unknown, adds nothing and cannot know what the callers pass.  The helpers the rules know by role
+    (the vector kernel) are analysed on their own as well."""
+    if f.get('vis') == 'Public' or f.get('trait') or f.get('impl') or f['kind'] != 'Fn':
+        return False
+    if role_of(facts, f) is not None:
+        return False
+    refs = referrers(facts).get(f['path'], set())
+    if not refs:
+        return False
+    # every referrer is itself analysed (a decoding method or another helper)
+    return True
 
 
 # ------------------------------------------------------------------------------------------
@@ -334,6 +359,23 @@ def _choose_arms(alt, leaf):
             return [x for _, x in arms]
         want = 'true' if c else 'false'
         return [x for d, x in arms if d == want]
+    # a match on the Result of a lossless integer conversion: `match u32::try_from(n) { Ok(k) => .., Err(_) => .. }`
+    sc = strip(scrut)
+    if isinstance(sc, tuple) and sc and sc[0] == 'call' and sc[1] in ('try_from', 'try_into') and sc[3]:
+        import re as _re
+        m = _re.search(r'for (u8|u16|u32|u64|u128|usize|i8|i16|i32|i64|i128|isize)>', sc[2] or '')
+        tgt = m.group(1) if m else (sc[4][0] if len(sc) > 4 and sc[4] and sc[4][0] in ('u8', 'u16', 'u32', 'u64', 'u128', 'usize') else None)
+        val = eval_expr(sc[3][0], leaf)
+        if tgt and val is not None and isinstance(val, int):
+            bits = {'u8': 8, 'u16': 16, 'u32': 32, 'u64': 64, 'u128': 128, 'usize': 64, 'i8': 7, 'i16': 15, 'i32': 31, 'i64': 63, 'i128': 127, 'isize': 63}[tgt]
+            fits = 0 <= val < (1 << bits)
+            want = 'Ok' if fits else 'Err'
+            pick = [x for d, x in arms if isinstance(d, tuple) and d[0] == 'pat' and isinstance(d[1], str) and d[1].startswith(want)]
+            if pick:
+                return pick[:1]
+            rest = [x for d, x in arms if isinstance(d, tuple) and d[0] == 'pat' and (d[1] == '_' or not (d[1].startswith('Ok') or d[1].startswith('Err')))]
+            if rest:
+                return rest[:1]
     sv = eval_expr(scrut, leaf)
     if sv is None:
         return [x for _, x in arms]
@@ -527,4 +569,131 @@ def stable_fkey(facts, fn):
         ro = _role_owner(facts, fn)
         if ro:
             return 'helper:' + ro
+        # a private function referenced from exactly one other function was factored out of it: it carries its name
+        if fn.get('vis') != 'Public':
+            so = _single_owner(facts, fn)
+            if so is not None:
+                return stable_fkey(facts, so)
     return fkey(fn)
+
+
+def _single_owner(facts, fn, depth=0):
+    if depth > 3:
+        return None
+    refs = referrers(facts).get(fn['path'], set())
+    if len(refs) != 1:
+        return None
+    g = facts.by_path.get(next(iter(refs)))
+    if g is None or g is fn:
+        return None
+    if g['kind'] == 'Fn' and not g.get('trait') and not g.get('impl') and g.get('vis') != 'Public' and role_of(facts, g) is None:
+        up = _single_owner(facts, g, depth + 1)
+        return up if up is not None else g
+    return g
+
+
+
+# ------------------------------------------------------------------------------------------ canonical slice views
+def slice_view(v):
+    """canonical (base, from, to) of a sub-slice expression, whatever its spelling:
+       x[..n] / x[a..] / x[a..b] / x.split_at(n).0 / .1 / x[a..][..n] / x.split_first_mut() parts.
+    `from` / `to` are symbolic values; to == None means "to the end", from == None means 0.  Returns None when `v` is
+    not a recognised view (the base itself is returned as (v, None, None))."""
+    v = strip(v)
+    if not isinstance(v, tuple) or not v:
+        return None
+    if v[0] == 'mutvar':
+        return slice_view(v[3])
+
+    def rng(r):
+        r = strip(r)
+        if isinstance(r, tuple) and r and r[0] == 'adt':
+            nm = r[1]
+            fs = dict(r[3])
+            if nm.endswith('RangeTo'):
+                return (None, fs.get(0))
+            if nm.endswith('RangeFrom'):
+                return (fs.get(0), None)
+            if nm.endswith('RangeFull'):
+                return (None, None)
+            if nm.endswith('ops::range::Range'):
+                return (fs.get(0), fs.get(1))
+        return 'no'
+
+    def add(a, b):
+        if a is None:
+            return b
+        if b is None:
+            return a
+        return ('bin', 'Add', a, b)
+    if (v[0] == 'call' and v[1] in ('index', 'index_mut') and len(v[3]) == 2) or v[0] == 'index':
+        base, r = (v[3][0], v[3][1]) if v[0] == 'call' else (v[1], v[2])
+        rr = rng(r)
+        if rr == 'no':
+            return None
+        inner = slice_view(base) or (strip(base), None, None)
+        b0, f0, t0 = inner
+        lo, hi = rr
+        nf = add(f0, lo)
+        nt = add(f0, hi) if hi is not None else t0
+        return (b0, nf, nt)
+    if v[0] == 'field' and isinstance(strip(v[1]), tuple) and strip(v[1])[0] == 'call' and strip(v[1])[1] in ('split_at', 'split_at_mut') and len(strip(v[1])[3]) == 2:
+        c = strip(v[1])
+        inner = slice_view(c[3][0]) or (strip(c[3][0]), None, None)
+        b0, f0, t0 = inner
+        n = c[3][1]
+        if v[2] == 0:
+            return (b0, f0, add(f0, n))
+        return (b0, add(f0, n), t0)
+    if v[0] == 'call' and v[1] in ('deref', 'deref_mut', 'as_ref', 'as_mut', 'as_slice', 'as_mut_slice', 'borrow') and len(v[3]) == 1:
+        inner = slice_view(v[3][0])
+        return inner if inner else (strip(v[3][0]), None, None)
+    return (v, None, None)
+
+
+def view_str(view):
+    """printable canonical form 'base[from..to]' (for comparison)"""
+    if view is None:
+        return '?'
+    b, f, t = view
+    return '%s[%s..%s]' % (sym.vstr(b), sym.vstr(f) if f is not None else '0', sym.vstr(t) if t is not None else '')
+
+
+
+# ------------------------------------------------------------------------------------------ the array drop guard, by structure
+def array_guard(facts):
+    """the drop guard of `<[T; N] as Decode>::decode_into`, found by structure (a struct nested in that function with a
+    `usize` counter field and a `&mut [MaybeUninit<T>; N]` field, and a Drop impl), whatever it and its fields are called.
+    -> {'path', 'short', 'count', 'slice', 'drop': fn or None} or None"""
+    for a in facts.adts:
+        if not a['path'].startswith('<[T; N] as codec::Decode>::decode_into::') or a['kind'] != 'struct' or not a['variants']:
+            continue
+        fs = a['variants'][0]['fields']
+        cnt = [f for f in fs if f['ty'] == 'usize']
+        slc = [f for f in fs if 'MaybeUninit<T>; N]' in f['ty'] and f['ty'].startswith('&')]
+        if len(fs) == 2 and len(cnt) == 1 and len(slc) == 1:
+            short = a['path'].split('::')[-1]
+            drops = [g for g in facts.fns if g.get('method') == 'drop' and g['kind'] == 'AssocFn' and ('decode_into::%s<' % short) in (g.get('self') or '')]
+            return {'path': a['path'], 'short': short, 'count': cnt[0]['name'], 'slice': slc[0]['name'],
+                    'count_idx': fs.index(cnt[0]), 'slice_idx': fs.index(slc[0]), 'drop': drops[0] if len(drops) == 1 else None}
+    return None
+
+
+def guard_canon(text, g, term=None):
+    """rewrite the printed form of values so that the guard reads `state.count` / `state.slice` / `State`"""
+    if not g:
+        return text
+    import re as _re
+    local = None
+    if term is not None:
+        for x in sym.walk(term):
+            for v in (x[1:] if isinstance(x, list) else ()):
+                pass
+    out = text
+    # field accesses through any local:  mut <local>.<count>  ->  mut state.count
+    out = _re.sub(r'\bmut (\w+)\.%s\b' % _re.escape(g['count']), 'mut state.count', out)
+    out = _re.sub(r'\bmut (\w+)\.%s\b' % _re.escape(g['slice']), 'mut state.slice', out)
+    out = _re.sub(r'\bself\.%s\b' % _re.escape(g['count']), 'self.count', out)
+    out = _re.sub(r'\bself\.%s\b' % _re.escape(g['slice']), 'self.slice', out)
+    out = out.replace('%s::%s{' % (g['short'], g['short']), 'State::State{')
+    return out
